@@ -503,7 +503,7 @@ fn run(p: &Plan, ctx: &RunCtx) -> bodyx::Ran<Obs> {
     }
     let out = sim.run(|| caller(p));
     let seen = seen.lock().unwrap().clone();
-    bodyx::Ran { observed: out.result, history: out.history, sched_tape: out.sched_tape, seen }
+    bodyx::Ran { observed: out.result, history: out.history, sched_tape: out.sched_tape, seen, plain_out: Vec::new() }
 }
 
 pub fn scenario(g: &mut G, ctx: &RunCtx) -> RunReport {
